@@ -45,6 +45,9 @@ impl Prop for C05 {
     fn id(&self) -> &'static str {
         "C05"
     }
+    fn canary(&self) -> bool {
+        true
+    }
     fn rule(&self) -> String {
         "cases = C03-style conversations where every request (incl. the handshake response) carries a generated start sequence id (0 / 1 mostly, else uniform 0-255, with 254/255 favoured) and some programs produce 256-1100 response packets (hundreds of rows, or a 300-1000 column header; enumerated: 65536 and more rows); 1 conversation in 1500 contains a row of 17-70 MB laid out against the packet boundaries (cells of 1x, 2x, 3x the packet size, several of them per row, small cells in between), in either protocol; enumerated multi-fragment (>= 2^24-1 byte) requests so that the *last* request id matters. Oracle: greeting id 0; every reply's packets are last_request_id+1+i mod 256. Non-trivial = some response has > 255 packets, or some request id != 0, or a multi-fragment request, or a response message of 2^24-1 bytes or more (enumerated: a 16 MiB cell between ordinary rows, request ids 0 and 250).".into()
     }
